@@ -52,6 +52,8 @@ type Node struct {
 	UnionTypes []string
 	LeafrefTo  string // type of the leafref target
 	IsKey      bool
+	// Domain: the values generators use for this node instead of the type's domain (a constrained leaf)
+	Domain []string
 }
 
 func (n *Node) Child(name string) *Node {
@@ -77,6 +79,7 @@ type nodeOpt func(*Node)
 
 func ext() nodeOpt                 { return func(n *Node) { n.Module, n.NS = ModExt, NSExt } }
 func def(v string) nodeOpt         { return func(n *Node) { n.Default = v } }
+func domain(v ...string) nodeOpt   { return func(n *Node) { n.Domain = v } }
 func state() nodeOpt               { return func(n *Node) { n.State = true } }
 func presence() nodeOpt            { return func(n *Node) { n.Presence = true } }
 func member(ch, cs string) nodeOpt { return func(n *Node) { n.Choice, n.Case = ch, cs } }
@@ -141,7 +144,7 @@ func buildTable() *Node {
 				leaf("name", "string"), leaf("descr", "string"), leaf("descr-long", "string"),
 				leaf("mtu", "uint16"), leaf("defmtu", "uint16", def("1500")), leaflist("tags", "string"),
 				leaf("oper", "string", state()),
-				cont("cfg", leaf("mode", "string"), cont("pres", presence()), leaf("descr", "string")),
+				cont("cfg", leaf("mode", "string"), cont("pres", presence()), leaf("descr", "string", domain("1", "22", "333"))),
 				list("sub", "id", leaf("id", "uint32"), leaf("v", "string")),
 				leaf("extattr", "string", ext()),
 			),
